@@ -195,13 +195,15 @@ def judge_archive(run, case, rec):
     # stored trajectories no longer refer to the pose a value belongs to
     w = rec.get("want")
     if w is not None and np.shape(w) == e.shape and n >= 2 and np.all(np.isfinite(w)) and np.all(np.isfinite(e)):
-        tol = rec.get("want_tol")
-        tol = 1e-9 * (1.0 + float(np.max(np.abs(w)))) if tol is None else tol
-        at_index = bool(np.all(np.abs(e - w) <= tol))
-        as_multiset = bool(np.all(np.abs(np.sort(e) - np.sort(w)) <= np.max(tol)))
-        run.check(at_index or not as_multiset, "value k is the value of pose k (not the same values in another order)", case,
+        # (a claim about the ORDER only: the values agree as a multiset within a generous band,
+        # and at least two of them sit far - 100 bands - from the value of their own pose; whether
+        # the values are right at all is C01's / C02's question)
+        band = 1e-7 * (1.0 + float(np.max(np.abs(w))))
+        far = np.abs(e - w) > 100.0 * band
+        as_multiset = bool(np.all(np.abs(np.sort(e) - np.sort(w)) <= band))
+        run.check(not (as_multiset and int(np.sum(far)) >= 2), "value k is the value of pose k (not the same values in another order)", case,
                   "%s result: the stored error values are those of the processed poses in another order "
-                  "(%d of %d values are not at the index of their pose)" % (tool, int(np.sum(np.abs(e - w) > tol)), n),
+                  "(%d of %d values are not at the index of their pose)" % (tool, int(np.sum(far)), n),
                   key="archive:values-not-at-their-pose", argv=rec["argv"])
     if n:
         want = rm.stats_definition(e)
